@@ -834,6 +834,13 @@ func checkC13(tier string) {
 						r.Violate("sql:unsafe-identifier-token:"+entry, fmt.Sprintf("%s/%s: the statement carries the identifier token %s", dialect, entry, clip(t.text)), map[string]interface{}{"case": cs, "sql": clipN(stmts[k].SQL, 400)})
 					}
 				}
+				if sk != bsk && entry == "qb.orderby" && strings.TrimSpace(cs.Idents["col"]) == "" && strings.TrimSpace(cs.Dir) == "" &&
+					sk == strings.Replace(bsk, " ORDER BY ID ASC", "", 1) {
+					// a blank ordering column with a blank direction adds no ORDER BY clause at all: the
+					// statement is the benign one minus that clause, nothing of the input reaches it
+					r.Count("blank_order_by_omitted", 1)
+					bsk = sk
+				}
 				if sk != bsk {
 					r.Violate("skeleton:differs-from-benign:"+entry, fmt.Sprintf("%s/%s: statement skeleton changes with the identifier strings: %s  vs benign  %s", dialect, entry, clipN(sk, 160), clipN(bsk, 160)), map[string]interface{}{"case": cs, "sql": clipN(stmts[k].SQL, 400), "benign_sql": bst[k].SQL})
 				}
